@@ -28,7 +28,7 @@ fn phases(tier: Tier) -> Phases {
             tok_reduced: seq_space(20, 3),
             text: 150_000,
             mutants: 90_000,
-            nested: (TEMPLATES * 200) as u64,
+            nested: (TEMPLATES * VARIANTS * 200) as u64,
             cli: 1_500,
             lsp: 3_000,
         },
@@ -37,7 +37,7 @@ fn phases(tier: Tier) -> Phases {
             tok_reduced: seq_space(20, 5),
             text: 1_500_000,
             mutants: 1_000_000,
-            nested: (TEMPLATES * 200) as u64,
+            nested: (TEMPLATES * VARIANTS * 200) as u64,
             cli: 20_000,
             lsp: 40_000,
         },
@@ -77,9 +77,11 @@ fn generate(tape: &mut Tape, index: u64, tier: Tier) -> (&'static str, Door, Str
     }
     i -= p.mutants;
     if i < p.nested {
+        // Ordered by depth, so that a blow-up is met at the smallest depth that shows it.
         let which = (i as usize) % TEMPLATES;
-        let depth = (i as usize) / TEMPLATES + 1;
-        return ("nested", Door::InProcess, nested_template(which, depth));
+        let variant = ((i as usize) / TEMPLATES) % VARIANTS;
+        let depth = (i as usize) / (TEMPLATES * VARIANTS) + 1;
+        return ("nested", Door::InProcess, nested_template_variant(which, depth, variant));
     }
     i -= p.nested;
     let door = if i < p.cli { Door::Cli } else { Door::Lsp };
@@ -89,8 +91,9 @@ fn generate(tape: &mut Tape, index: u64, tier: Tier) -> (&'static str, Door, Str
         1 | 2 => gen_mutant(tape),
         _ => {
             let which = tape.choose(TEMPLATES);
+            let variant = tape.choose(VARIANTS);
             let depth = tape.range(1, 200);
-            nested_template(which, depth)
+            nested_template_variant(which, depth, variant)
         }
     };
     (if door == Door::Cli { "cli" } else { "lsp" }, door, text)
@@ -315,7 +318,7 @@ impl Property for C04 {
          (<=3 quick, <=5 thorough), each token by a representative spelling; G-text strings over a weighted alphabet \
          (keywords, punctuation, digit runs up to 40, 2/3/4-byte characters, NUL, line breaks, quotes, splices of corpus \
          tokens); token-level mutants (delete/duplicate/swap/replace/insert/move, 1-4 per case) of the repo corpus and of \
-         generated programs; 8 nesting templates at every depth 1..200. In-process door: oal_syntax::parse and \
+         generated programs; 8 nesting templates at every depth 1..200, each well formed and in 4 ill-formed variants (innermost expression missing, no closing brackets, wrong innermost closing bracket, half of the closing brackets missing). In-process door: oal_syntax::parse and \
          oal_wasm::compile must return (panics caught, aborts and CPU limit seen by the driver); compile must yield exactly \
          one of api/error. CLI door: real oal-cli must exit 0 or 1. LSP door: real oal-lsp must answer a request after a \
          full-text didChange and stay alive. Non-trivial: >=3 tokens (own splitter) and not a valid program, or a valid \
@@ -332,8 +335,8 @@ impl Property for C04 {
     }
     fn exhaustive(&self, tier: Tier) -> Option<String> {
         Some(match tier {
-            Tier::Quick => "all token-kind sequences of length <=3 over 54 kinds (160435) and over the 20-kind reduced alphabet (8421), one spelling per kind; all 8 nesting templates x depth 1..200",
-            Tier::Thorough => "all token-kind sequences of length <=3 over 54 kinds (160435) and length <=5 over the 20-kind reduced alphabet (3368421), one spelling per kind; all 8 nesting templates x depth 1..200",
+            Tier::Quick => "all token-kind sequences of length <=3 over 54 kinds (160435) and over the 20-kind reduced alphabet (8421), one spelling per kind; all 8 nesting templates x 5 variants x depth 1..200",
+            Tier::Thorough => "all token-kind sequences of length <=3 over 54 kinds (160435) and length <=5 over the 20-kind reduced alphabet (3368421), one spelling per kind; all 8 nesting templates x 5 variants x depth 1..200",
         }.to_owned())
     }
     fn run_case(&self, tape: &mut Tape, ctx: &CaseCtx) -> CaseReport {
@@ -387,6 +390,10 @@ impl Property for C04 {
             Some(f) => Err(f),
             None => Ok(()),
         })
+    }
+    fn cpu_limit_s(&self) -> u64 {
+        // Normal cost is below 10 ms per text.
+        10
     }
     fn prelude(&self, _tier: Tier) -> Result<BTreeMap<String, Value>, Failure> {
         let mut m = BTreeMap::new();
